@@ -145,7 +145,7 @@ def check_solved(ctx, sp, p, res, r, what):
         if not m.any():
             continue
         ctx.hook('solved.g_inside_core')
-        bound = Y / r[m] + 1e-9
+        bound = (Y / r[m]) * (1 + 1e-9) + 1e-9          # g r equals the residual inside a core: equality up to rounding, in any unit of length
         dev = np.abs(g[m, i, j])
         ctx.observe('g_core/bound', float((dev / bound).max()))
         if not np.all(dev <= bound):
